@@ -340,6 +340,10 @@ func PublishContext[T any](bus *EventBus, ctx context.Context, event T) {
 
 		// For once handlers, use CompareAndSwap to ensure atomic execution
 		if h.once {
+			// A cancelled publish skips every handler below; it must not use up a once handler
+			if ctx.Err() != nil {
+				continue
+			}
 			if !atomic.CompareAndSwapUint32(&h.executed, 0, 1) {
 				continue // Already executed
 			}
